@@ -560,6 +560,10 @@ class AccessMixin(object):
         # reflective access with a computed name / on an opaque object: an opaque result
         if name == 'hasattr':
           yield st, self.fresh_val(st, BOOL, 'hasattr')
+        elif (isinstance(obj, V) and obj.ty.is_reflike and isinstance(nm, V) and nm.ty.k in ('str', 'any')
+              and default is not None and isinstance(default, V) and default.ty.k == 'none'):
+          # getattr(obj, <computed name>, None): a function of the object and the name (None when absent or None)
+          yield st, V(ANY, z3.Function('dyn_attr', I, I, I)(obj.t, nm.t))
         else:
           yield st, self.fresh_val(st, ANY, 'getattr')
     elif name == 'isinstance':
